@@ -28,6 +28,7 @@ impl Default for DemoInfo { #[verifier::external_body] fn default() -> Self { un
 AFTER_TYPES = r"""
 impl Clone for RenamePattern { #[verifier::external_body] fn clone(&self) -> (r: Self) ensures r == *self { unimplemented!() } }
 impl Clone for RenameAttr { #[verifier::external_body] fn clone(&self) -> (r: Self) ensures r == *self { unimplemented!() } }
+#[verifier::external_body] pub fn __parse_pattern(s: &str) -> RenamePattern { unimplemented!() }
 impl Default for RenameAttr { #[verifier::external_body] fn default() -> (r: Self) ensures r.pattern is None { unimplemented!() } }
 
 // ---- oracle, from the documentation on ast::Attrs / hir::Attrs fields:
@@ -98,6 +99,11 @@ def build(tier):
     p.sub("E1", r"pub\(crate\)", "pub", count=1)
     p.contract(f"        ensures {CANARY} r.pattern == inherit_pattern(self.pattern, context, is_abi_rename),", ret_name="r")
     vf.add_piece(p, expected="attrs_for_inheritance")
+    # from_pattern: an attribute that is present is never stored as "absent" (extend() treats None as "keep the inherited one")
+    p = Piece(ast, ast.item("impl RenameAttr::from_pattern", "fn"))
+    p.contract(f"        ensures {CANARY} r.pattern is Some,", ret_name="r")
+    p.sub("E6", r"s\.parse\(\)\.unwrap\(\)", "__parse_pattern(s)", count=None, why="str::parse::<RenamePattern>() (FromStr, Infallible) abstracted")
+    vf.add_piece(p, expected="from_pattern")
     vf.add("}\n")
     # ---- ast::Attrs
     vf.add("pub mod ast_attrs {\nuse super::*;\n")
